@@ -467,7 +467,7 @@ def run(ctx, res):
                             op_ok = True
             elif any(x is t for t in calls_tabo for x in S.walk(op)):
                 op_ok = True
-            pops = [n for n in S.walk(loop) if n["k"] == "MethodCall" and n["method"] == "pop" and n["recv"].get("path") == "tokens"]
+            pops = [n for n in S.walk(loop) if n["k"] == "MethodCall" and n["method"] == "pop" and n["recv"].get("path") in {p_["name"] for p_ in pe["params"] if "TokenStream" in p_["ty"]}]
             problems = []
             if acc is None or not assigned:
                 problems.append("the new node is not `acc = BinaryOperator(Rc::new(acc), ..)`")
